@@ -2020,7 +2020,10 @@ class FnTranslator:
             if ins['cnt'] is not None and not (ins['cnt'].k == 'int' and ins['cnt'].a == 1):
                 self.setl(d, pty, '(%s)malloc(sizeof(%s) * %s)' % (em.ct(pty), em.ct(ty), em.cexpr(ins['cnt'])))
             else:
-                self.decls.append('  %s s_%s;' % (em.ct(ty), cid(d)))
+                # stack slots start zeroed (like the heap): LLVM merges small arrays into one wider slot and fills it with narrower
+                # stores; over an indeterminate initial value those partial writes never become a constant for CBMC
+                init = '{ 0 }' if ty.k in ('struct', 'arr') and not (ty.k == 'struct' and not ty.fields) else ('{ }' if ty.k == 'struct' else '0')
+                self.decls.append('  %s s_%s = %s;' % (em.ct(ty), cid(d), init))
                 self.setl(d, pty, '&s_%s' % cid(d))
         elif op == 'load':
             self.chk_mem(ins['ty'])
@@ -2425,6 +2428,34 @@ class FnTranslator:
         self.body.append('{ ' + ' '.join(lines) + ' }')
         return True
 
+    def typed_array_loop(self, kind, args):
+        """run-time sized copy between arrays of one scalar type (vector<int>/<double>/<T*> growth and assignment): an
+        element-wise typed loop.  The size is concrete during symbolic execution in all our harnesses, so the loop folds and the
+        contents stay propagatable constants (CBMC's built-in memcpy/memmove makes the destination opaque)."""
+        if args[2].k == 'int':
+            return False
+        dv, dt = self.scalar_ptr(args[0])
+        sv, st = self.scalar_ptr(args[1])
+        t = dt or st
+        if t is None:
+            return False
+        if dt is not None and st is not None and (layout(dt)[0] != layout(st)[0] or (dt.k == 'ptr') != (st.k == 'ptr') or
+                                                  (dt.k in ('float', 'double')) != (st.k in ('float', 'double'))):
+            return False
+        em = self.em
+        ct = em.ct(t)
+        esz = layout(t)[0]
+        de = em.cexpr(args[0] if dt is None else dv)
+        se = em.cexpr(args[1] if st is None else sv)
+        self.tmpn += 1
+        k = self.tmpn
+        self.body.append(
+            '{ uint64_t __n%d = (uint64_t)%s / %d; %s* __d%d = (%s*)%s; %s* __s%d = (%s*)%s; '
+            'if (!IR2C_SAME_OBJECT(__d%d, __s%d) || IR2C_PTRCMP(__d%d, <=, __s%d)) { for (uint64_t __i = 0; __i < __n%d; __i++) __d%d[__i] = __s%d[__i]; } '
+            'else { for (uint64_t __i = __n%d; __i > 0; __i--) __d%d[__i - 1] = __s%d[__i - 1]; } }'
+            % (k, em.cexpr(args[2]), esz, ct, k, ct, de, ct, k, ct, se, k, k, k, k, k, k, k, k, k, k))
+        return True
+
     def intrinsic(self, name, ins):
         em = self.em
         args = [v for v, at in ins['args']]
@@ -2440,6 +2471,8 @@ class FnTranslator:
             if n1 == 'memcpy' and self.typed_memcpy(args):
                 return None
             if self.typed_array_copy(args):
+                return None
+            if self.typed_array_loop(n1, args):
                 return None
             return '__ir2c_%s((void*)%s, (const void*)%s, %s)' % (n1, a[0], a[1], a[2])
         if n1 == 'memset':
